@@ -28,14 +28,14 @@ def packs(tier):
         "v5stall":  P("v5stall", rest=("ping", "bad"), v5=(1,), PeerReads=False, CapSock=0),
         "hs":       P("hs", first=("connect", "badconnect"), rest=("ping",)),
         "will":     P("will", rest=("disc",), v5=(1,), WillDelay=True),
-        "take":     P("take", rest=(), NConn=2, SameId=True, PriorSession=True),
+        "take":     P("take", rest=(), NConn=2, SameId=True, PriorSession=True, PeerMayClose=False),
         "resp":     P("resp", rest=("bad",), TrackOwed=True, props=cl.PROPS + ["Responsive"]),
     }
     expose = {"in_send_unguarded": "v3err", "seterror_blocks_in_once": "v5stall", "unregistered_not_closed": "hs",
               "will_timer_outlives_stop": "will", "c05_relock_window": "take", "no_close_after_error": "resp"}
-    green = ["v3err", "hs", "will", "take", "resp"]
+    green = ["v3err", "hs", "will", "resp"]       # two connections (pack take) are ~10^6 states: thorough only
     if tier == "thorough":
-        green.append("v5stall")
+        green += ["v5stall", "take"]
         ps.update({
             "disc":     P("disc", rest=("disc", "ping")),
             "v3mix":    P("v3mix", rest=("ping", "bad", "disc")),
@@ -44,8 +44,8 @@ def packs(tier):
             "keep":     P("keep", rest=("ping", "bad"), KeepAlive=True),
             "api":      P("api", rest=("ok", "bad"), ApiCalls=2),
             "cap2":     P("cap2", rest=("bad",), CapIn=2, CapOut=2, Budget=5),
-            "take2":    P("take2", rest=("bad",), NConn=2, SameId=True, PriorSession=False, Budget=4),
-            "two":      P("two", rest=("bad",), NConn=2),
+            "take2":    P("take2", rest=("bad",), NConn=2, SameId=True, PriorSession=False, PeerMayClose=False),
+            "two":      P("two", rest=("bad",), NConn=2, PeerMayClose=False),
         })
         green += ["disc", "v3mix", "v5mal", "okack", "keep", "api", "cap2", "take2", "two"]
     return ps, expose, green
@@ -304,8 +304,8 @@ def run(ctx):
     ctx.cov["storm_connections"] = nstorm_conns
     ctx.cov["rule"] = ("TLC: every pack of Conn.tla (constants Ops extracted from server/client.go and server/server.go by go/ast at check time) is "
                        "checked for deadlock, StopReturns, SockClosedLeadsToClosed, NothingAliveAfterStop, OnceOnly, OneRegistered, LifecycleInv (pack "
-                       "`resp` also Responsive) with all named deviations enabled (must hold), and once per deviation without it (the counter-example "
-                       "is converted into a script). Real broker: every converted counter-example, the regression library and the storms are executed "
+                       "`resp` also Responsive) with all named deviations enabled (must hold); for each deviation the stuck state behind it is searched in "
+                       "the faithful model (no deviation) and the shortest behaviour reaching it is converted into a script. Real broker: every converted counter-example, the regression library and the storms are executed "
                        "by harness/cmd/conn, one fresh in-process broker per process; verdict clauses: request answered or connection closed within "
                        "2 s, closed socket => `closed` event within 2 s, Stop returns nil within 3 s, Unload/OnStop once, no gmqtt frame in the "
                        "goroutine profile after Stop / after all peers closed. Storm lifecycle events are validated by TLC against TraceConn.tla. "
